@@ -204,7 +204,8 @@ const ANN_ENTRIES: [&str; 3] = ["note", "a longer remark", "x"];
 
 /// Source table for a shape; `multi` selects the cell class that gets a two-line text (0 = none).
 fn source(ni: usize, no: usize, na: usize, nr: usize, marker: &str, rows: bool, name: bool, values: bool, label: bool, multi: usize) -> SrcTable {
-  let in_name = |k: usize| if multi == 1 && k == 0 { l("Cust\ntype") } else { l(&format!("In{}", k + 1)) };
+  // variant 14: the first input expression is a name spelled like a hit policy marker
+  let in_name = |k: usize| if multi == 1 && k == 0 { l("Cust\ntype") } else if multi == 14 && k == 0 { l(if marker == "A" { "U" } else { "A" }) } else { l(&format!("In{}", k + 1)) };
   SrcTable {
     name: if name { Some("Order options".into()) } else { None },
     hit_policy: marker.to_string(),
@@ -609,7 +610,7 @@ pub fn run() {
               if *no == 1 && label {
                 continue;
               }
-              for multi in 0..=13usize {
+              for multi in 0..=14usize {
                 // a two-line cell needs its class to exist
                 if (multi == 2 || multi == 4) && !values {
                   continue;
@@ -656,6 +657,7 @@ pub fn run() {
                       // (the rule number stands in the middle line of a cell three lines high)
                       12 => "three-line-output-entry",
                       13 => "three-line-input-entry-of-the-last-rule",
+                      14 => "first-input-expression-spelled-like-a-hit-policy-marker",
                       _ => "equal-entries-of-consecutive-rules",
                     }
                   );
